@@ -55,6 +55,27 @@ func c12FailingThunk(msg string) graphql.FieldResolveFn {
 	}
 }
 
+// a resolver whose response is its argument map and that afterwards treats
+// p.Args as its own: overwrites, deletes and adds top-level entries
+func c12ArgEcho(p graphql.ResolveParams) (interface{}, error) {
+	b, _ := json.Marshal(p.Args)
+	for k := range p.Args {
+		if k == "b" {
+			delete(p.Args, k)
+		} else {
+			p.Args[k] = "overwritten by an earlier call"
+		}
+	}
+	p.Args["added"] = "by an earlier call"
+	return string(b), nil
+}
+
+func c12ArgEchoField() *graphql.Field {
+	return &graphql.Field{Type: graphql.String, Resolve: c12ArgEcho, Args: graphql.FieldConfigArgument{
+		"a": &graphql.ArgumentConfig{Type: graphql.Int}, "b": &graphql.ArgumentConfig{Type: graphql.String},
+		"c": &graphql.ArgumentConfig{Type: graphql.NewList(graphql.Int)}, "d": &graphql.ArgumentConfig{Type: graphql.Boolean, DefaultValue: true}}}
+}
+
 func c12Schema() graphql.Schema {
 	str := func(v string) graphql.FieldResolveFn {
 		return func(p graphql.ResolveParams) (interface{}, error) { return v, nil }
@@ -74,6 +95,7 @@ func c12Schema() graphql.Schema {
 			"alias": &graphql.Field{Type: graphql.String}, "age": &graphql.Field{Type: graphql.Int},
 			"broken":  &graphql.Field{Type: graphql.String, Resolve: fail("broken")},
 			"lazyBad": &graphql.Field{Type: graphql.String, Resolve: c12FailingThunk("lazy broken")},
+			"argEcho": c12ArgEchoField(),
 		}
 		for k, v := range extra {
 			f[k] = v
@@ -119,7 +141,8 @@ func c12Schema() graphql.Schema {
 		map[string]interface{}{"kind": "Cat", "name": "Tom", "nick": "T", "meows": true},
 	}
 	qf := graphql.Fields{
-		"aab": &graphql.Field{Type: graphql.String, Resolve: str("aab")}, "aac": &graphql.Field{Type: graphql.String, Resolve: str("aac")},
+		"argEcho": c12ArgEchoField(),
+		"aab":     &graphql.Field{Type: graphql.String, Resolve: str("aab")}, "aac": &graphql.Field{Type: graphql.String, Resolve: str("aac")},
 		"aad": &graphql.Field{Type: graphql.String, Resolve: str("aad")}, "aae": &graphql.Field{Type: graphql.String, Resolve: str("aae")},
 		"aba": &graphql.Field{Type: graphql.String, Resolve: str("aba")}, "aca": &graphql.Field{Type: graphql.String, Resolve: str("aca")},
 		"echo": &graphql.Field{Type: graphql.String, Args: graphql.FieldConfigArgument{
@@ -136,8 +159,12 @@ func c12Schema() graphql.Schema {
 		"req2": &graphql.Field{Type: graphql.String, Args: graphql.FieldConfigArgument{
 			"x": &graphql.ArgumentConfig{Type: graphql.NewNonNull(graphql.Int)}, "y": &graphql.ArgumentConfig{Type: graphql.NewNonNull(graphql.Int)},
 			"z": &graphql.ArgumentConfig{Type: graphql.NewNonNull(graphql.Int)}}, Resolve: str("req2")},
-		"pets":     &graphql.Field{Type: graphql.NewList(pet), Resolve: func(p graphql.ResolveParams) (interface{}, error) { return animals, nil }},
-		"named":    &graphql.Field{Type: graphql.NewList(named), Resolve: func(p graphql.ResolveParams) (interface{}, error) { return animals, nil }},
+		"pets":  &graphql.Field{Type: graphql.NewList(pet), Resolve: func(p graphql.ResolveParams) (interface{}, error) { return animals, nil }},
+		"named": &graphql.Field{Type: graphql.NewList(named), Resolve: func(p graphql.ResolveParams) (interface{}, error) { return animals, nil }},
+		"dogs": &graphql.Field{Type: graphql.NewList(dog), Resolve: func(p graphql.ResolveParams) (interface{}, error) {
+			return []interface{}{map[string]interface{}{"kind": "Dog", "name": "Rex"}, map[string]interface{}{"kind": "Dog", "name": "Fido"},
+				map[string]interface{}{"kind": "Dog", "name": "Bo"}}, nil
+		}},
 		"catOrDog": &graphql.Field{Type: graphql.NewList(catOrDog), Resolve: func(p graphql.ResolveParams) (interface{}, error) { return animals, nil }},
 		"human": &graphql.Field{Type: human, Resolve: func(p graphql.ResolveParams) (interface{}, error) {
 			return map[string]interface{}{"kind": "Human", "name": "Ann", "pets": animals}, nil
@@ -197,6 +224,13 @@ func c12Corpus() []c12Req {
 		q("valid", `{ aab aac aad pets { name ... on Dog { barks } ... on Cat { meows } } human { name pets { name } } }`),
 		q("valid", `query Q($n: Int = 3) { echo(n: $n, color: RED, in: {a: 1, e: true, d: {p: 1, q: 2}}) args3(arga: 1) }`),
 		q("valid", `{ named { name nick } catOrDog { ... on Named { name } } robot { model } }`),
+		// resolvers that read their all-literal arguments and then modify p.Args: at the root, twice in one
+		// selection, under lists with several items, in a mutation-free query repeated on a cached plan
+		q("args-mutated", `{ argEcho(a: 1, b: "x", c: [1, 2]) }`), q("args-mutated", `{ argEcho }`),
+		q("args-mutated", `{ x: argEcho(a: 1, b: "x") y: argEcho(a: 1, b: "x") }`),
+		q("args-mutated", `{ dogs { name argEcho(a: 7, b: "p", c: [3]) } }`),
+		q("args-mutated", `{ dogs { argEcho } human { argEcho(a: 2) pets { ... on Dog { argEcho(a: 3, d: false) } ... on Cat { argEcho(a: 5) } } } }`),
+		{Kind: "args-mutated", Query: `query($v: Int) { argEcho(a: $v, b: "lit") dogs { argEcho(a: $v, b: "lit") } }`, Vars: map[string]interface{}{"v": 9}},
 		// did-you-mean lists with equally distant candidates
 		q("suggest-field", `{ aaa }`), q("suggest-field", `{ aa }`), q("suggest-field", `{ aab aaz abb }`), q("suggest-field", `{ a }`),
 		q("suggest-field", `{ human { nam nic ag } }`), q("suggest-field", `{ e7 t9 }`),
